@@ -117,6 +117,19 @@ func (h *Handler) HandleICMPOpen(
 		return fmt.Errorf("session limit reached")
 	}
 
+	// End-to-end encryption is mandatory: an open without an ephemeral key
+	// (all-zero key) is refused instead of falling back to plaintext, which a
+	// transit could otherwise force by blanking the key.
+	var noKey [protocol.EphemeralKeySize]byte
+	if remoteEphemeralPub == noKey {
+		h.writer.WriteICMPOpenErr(peerID, streamID, &protocol.ICMPOpenErr{
+			RequestID: open.RequestID,
+			ErrorCode: protocol.ErrGeneralFailure,
+			Message:   "ephemeral key required",
+		})
+		return fmt.Errorf("ICMP_OPEN without ephemeral key")
+	}
+
 	// Create session
 	session := NewSession(streamID, open.RequestID, peerID, destIP)
 
